@@ -317,7 +317,9 @@ theorem processEvent_grow {b : Bool} (h : Hooks) (hg : HooksGrow b h) (fl : Flav
     · exact Grow.refl _ _
     · split
       · exact Grow.refl _ _
-      · exact execute_grow h hg fl m ev _ s'
+      · split
+        · exact Grow.refl _ _
+        · exact execute_grow h hg fl m ev _ s'
 
 theorem transientLoop_grow {b : Bool} (h : Hooks) (hg : HooksGrow b h) (fl : Flavor) (m : Machine) (u : UEnv) :
     ∀ (n : Nat) (s : St), Grow b s (transientLoop h fl m u n s) := by
